@@ -138,11 +138,15 @@ pub fn append_rule(rule: Arc<Rule>) -> bool {
                 .or_default()
                 .insert(Arc::clone(&rule));
         }
-        Err(err) => logging::warn!(
-            "[Hot Spot append_rule] Ignoring invalid flow rule {:?}, reason: {:?}",
-            rule,
-            err
-        ),
+        Err(err) => {
+            logging::warn!(
+                "[Hot Spot append_rule] Ignoring invalid flow rule {:?}, reason: {:?}",
+                rule,
+                err
+            );
+            // nothing was added: there is nothing to rebuild
+            return false;
+        }
     }
     let mut placeholder = Vec::new();
     let new_tcs_of_res = build_resource_circuit_breaker(
